@@ -20,9 +20,14 @@ T = {
 }
 # properties whose check module is finished are added here as the work proceeds
 EXTRA = os.path.join(V, "tools", "manifest_extra.json")
+READY = {"C01", "C02", "C07"}
 if os.path.exists(EXTRA):
     for k, v in json.load(open(EXTRA)).items():
-        T[k] = tuple(v)
+        if k == "_ready":
+            READY |= set(v)
+        else:
+            T[k] = tuple(v)
+T = {k: v for k, v in T.items() if k in READY}
 
 checks, na = [], []
 for p in props:
